@@ -2,26 +2,43 @@
    surface-brightness radius (RadiusM.radius_sigma_m, fraction 1/2) of the ALREADY distance-interpolated and 1/d^2-scaled fluxes,
    taken over the aperture radii theta*d of the trial distances, compared with those same radii.  No property states what
    remove_resolved should remove; this file says what it does, and RadiusM what that means. *)
-From Coq Require Import QArith List Bool Arith Lia Lra Psatz.
+From Coq Require Import QArith List Bool Arith Lia Lqa.
 Import ListNotations.
 From SedV Require Import PLin FitModel RadiusM.
+
 Open Scope Q_scope.
 
 Definition aps_of (theta : Q) (ds : list Q) : list Q := map (fun d => theta * (d * 1000)) ds.
 
 Definition column (j : nat) (fl : list (list Q)) : list Q := map (fun row => nth j row 0) fl.
 
+(* the apertures ConvolvedFluxes.interpolate leaves behind: those beyond the table reset to the largest tabulated one (tables with
+   a single aperture are repeated and nothing is reset) *)
+Definition clamped (tab : list pt) (aps : list Q) : list Q :=
+  match tab with
+  | _ :: _ :: _ => map (fun a => if Qlt_le_dec (tab_hi tab) a then tab_hi tab else a) aps
+  | _ => aps
+  end.
+
 (* per band: the radius, the mask over the distances, and (for the correspondence check's tie detection) the threshold and the
-   surface brightnesses the radius was computed from *)
+   finite surface brightnesses the radius was computed from.  None: a surface brightness was +inf or nan (outside the model) *)
 Record bandres := { b_radius : Q; b_mask : list bool; b_thr : Q; b_sigma : list Q }.
 
-Definition band_masks (thetas ds : list Q) (fl : list (list Q)) : list bandres :=
-  map (fun jt => let aps := aps_of (snd jt) ds in
-                 let col := column (fst jt) fl in
-                 let sg := sigma_m aps col in
-                 let r := radius_sigma_m (1 # 2) aps col in
-                 {| b_radius := r; b_mask := ext_mask aps r; b_thr := (1 # 2) * qmax sg; b_sigma := sg |})
-      (combine (seq 0 (length thetas)) thetas).
+Definition band_res (tab : list pt) (theta : Q) (ds : list Q) (col : list Q) : option bandres :=
+  let aps := aps_of theta ds in
+  let capped := clamped tab aps in
+  match sigma_o capped col with
+  | Some sg => let thr := (1 # 2) * qmax (somes sg) in
+               let r := radius_thr_o thr capped sg in
+               Some {| b_radius := r; b_mask := ext_mask aps r; b_thr := thr; b_sigma := somes sg |}
+  | None => None
+  end.
+
+Fixpoint band_masks (j : nat) (tabs : list (list pt)) (thetas ds : list Q) (fl : list (list Q)) : list (option bandres) :=
+  match tabs, thetas with
+  | tab :: tr, theta :: thr => band_res tab theta ds (column j fl) :: band_masks (S j) tr thr ds fl
+  | _, _ => []
+  end.
 
 Definition ext_rows (n : nat) (bm : list bandres) : list (list bool) :=
   map (fun i => map (fun b => nth i (b_mask b) false) bm) (seq 0 n).
@@ -29,26 +46,72 @@ Definition ext_rows (n : nat) (bm : list bandres) : list (list bool) :=
 (* one model: per-band results and the mask [distance][band] *)
 Definition resolved_model (thetas ds : list Q) (tabs : list (list pt)) : option (list bandres * list (list bool)) :=
   match all_some (map (fun d => all_some (scaled_band_list tabs thetas d)) ds) with
-  | Some fl => let bm := band_masks thetas ds fl in Some (bm, ext_rows (length ds) bm)
+  | Some fl => match all_some (band_masks 0 tabs thetas ds fl) with
+               | Some bm => Some (bm, ext_rows (length ds) bm)
+               | None => None
+               end
   | None => None
   end.
 
-Definition resolved_pkg (thetas ds : list Q) (models : list (list (list pt))) : option (list (list bandres * list (list bool))) :=
-  all_some (map (resolved_model thetas ds) models).
+Definition resolved_pkg (thetas ds : list Q) (models : list (list (list pt))) : list (option (list bandres * list (list bool))) :=
+  map (resolved_model thetas ds) models.
 
-(* the mask of a band is the one RadiusM describes *)
-Lemma band_masks_spec thetas ds fl b : In b (band_masks thetas ds fl) ->
-  exists j theta, nth_error thetas j = Some theta /\
-    b_radius b = radius_sigma_m (1 # 2) (aps_of theta ds) (column j fl) /\
-    b_mask b = ext_mask (aps_of theta ds) (b_radius b).
+(* the radius is the one RadiusM describes, computed on the reset apertures; the mask compares it with the requested ones *)
+Lemma band_res_spec tab theta ds col b : band_res tab theta ds col = Some b ->
+  radius_sigma_o (1 # 2) (clamped tab (aps_of theta ds)) col = Some (b_radius b) /\
+  b_mask b = ext_mask (aps_of theta ds) (b_radius b).
 Proof.
-  unfold band_masks. intro H. apply in_map_iff in H. destruct H as ((j, theta) & <- & Hin).
-  exists j, theta. split; [|split; reflexivity].
-  assert (G : forall l k, In (j, theta) (combine (seq k (length l)) l) -> nth_error l (j - k) = Some theta /\ (k <= j)%nat).
-  { induction l as [|x l IH]; intros k Hk; [destruct Hk|]. simpl in Hk. destruct Hk as [E|Hk].
-    - injection E as <- <-. rewrite Nat.sub_diag. split; [reflexivity|lia].
-    - destruct (IH (S k) Hk) as [A B]. split; [|lia]. replace (j - k)%nat with (S (j - S k)) by lia. exact A. }
-  destruct (G thetas 0%nat Hin) as [A _]. now rewrite Nat.sub_0_r in A.
+  unfold band_res, radius_sigma_o. destruct (sigma_o _ col) as [sg|]; [|discriminate].
+  intro H. injection H as <-. split; reflexivity.
+Qed.
+
+(* a model is never marked as resolved at a distance whose aperture lies at or beyond the largest tabulated one *)
+Lemma clamped_nondecreasing tab aps : increasing aps -> nondecreasing (clamped tab aps).
+Proof.
+  intro I. unfold clamped. destruct tab as [|p [|p' t]].
+  1,2: induction I; constructor; try lra; assumption.
+  set (hi := tab_hi (p :: p' :: t)). induction I as [| |a a' r L I IH]; simpl; try constructor.
+  - destruct (Qlt_le_dec hi a), (Qlt_le_dec hi a'); lra.
+  - exact IH.
+Qed.
+
+Lemma clamped_last_le tab aps : 0 < tab_hi tab -> (forall a, In a aps -> 0 < a) -> aps <> [] -> (2 <= length tab)%nat ->
+  last (clamped tab aps) 0 <= tab_hi tab.
+Proof.
+  intros H P NE L. unfold clamped. destruct tab as [|p [|p' t]]; [simpl in L; lia|simpl in L; lia|].
+  set (hi := tab_hi (p :: p' :: t)) in *. clearbody hi.
+  induction aps as [|a r IH]; [congruence|]. destruct r as [|b r'].
+  - simpl. destruct (Qlt_le_dec hi a); lra.
+  - change (last (map (fun a0 => if Qlt_le_dec hi a0 then hi else a0) (a :: b :: r')) 0)
+      with (last (map (fun a0 => if Qlt_le_dec hi a0 then hi else a0) (b :: r')) 0).
+    apply IH; [intros x Hx; apply P; right; exact Hx|discriminate].
+Qed.
+
+Theorem resolved_not_beyond_table tab theta ds col b i : (2 <= length tab)%nat -> 0 < tab_hi tab -> 0 < theta ->
+  increasing ds -> (forall d, In d ds -> 0 < d) -> length col = length ds -> ds <> [] ->
+  band_res tab theta ds col = Some b ->
+  tab_hi tab <= nth i (aps_of theta ds) 0 -> nth i (b_mask b) false = false.
+Proof.
+  intros Lt Hh Ht I Pd Lc NE Hb Hi.
+  destruct (band_res_spec _ _ _ _ _ Hb) as [Hr Hm].
+  assert (Pa : forall a, In a (aps_of theta ds) -> 0 < a).
+  { intros a Ha. unfold aps_of in Ha. apply in_map_iff in Ha. destruct Ha as (d & <- & Hd). specialize (Pd d Hd). nra. }
+  assert (Ia : increasing (aps_of theta ds)).
+  { clear -Ht I. induction I as [| |a a' r L I IH]; simpl; try constructor; [nra|exact IH]. }
+  assert (NEa : aps_of theta ds <> []) by (unfold aps_of; destruct ds; [congruence|discriminate]).
+  assert (Pc : forall a, In a (clamped tab (aps_of theta ds)) -> 0 < a).
+  { unfold clamped. destruct tab as [|p [|p' t]]; try exact Pa. intros a Ha. apply in_map_iff in Ha. destruct Ha as (x & <- & Hx).
+    destruct (Qlt_le_dec _ x); [exact Hh|apply Pa; exact Hx]. }
+  assert (Lcl : length col = length (clamped tab (aps_of theta ds))).
+  { unfold clamped, aps_of. destruct tab as [|p [|p' t]]; rewrite ?map_length; exact Lc. }
+  pose proof (radius_sigma_o_le_last (1 # 2) _ col (b_radius b) (clamped_nondecreasing tab _ Ia) Pc Lcl Hr) as R.
+  pose proof (clamped_last_le tab _ Hh Pa NEa Lt) as C.
+  rewrite Hm. unfold ext_mask.
+  destruct (Nat.lt_ge_cases i (length (aps_of theta ds))) as [Li|Li].
+  - rewrite (nth_indep _ false ((fun a => if Qlt_le_dec a (b_radius b) then true else false) 0)) by (rewrite map_length; exact Li).
+    rewrite (map_nth (fun a => if Qlt_le_dec a (b_radius b) then true else false)).
+    destruct (Qlt_le_dec (nth i (aps_of theta ds) 0) (b_radius b)); [lra|reflexivity].
+  - apply nth_overflow. rewrite map_length. exact Li.
 Qed.
 
 (* a larger distance never turns an unresolved model into a resolved one (per band): the mask is an initial segment of the grid *)
